@@ -16,11 +16,19 @@ Init == /\ set \in Sets
 Export == /\ ~done
           /\ PrintT(<<"CASE", ToJson([set |-> set, name |-> name, value |-> Op[set][name],
                                       len |-> GroupLen(Op[set][name]),
-                                      sa |-> RequiredSA(Op[set][name])])>>)
+                                      sa |-> NamedSA(name)])>>)
           /\ done' = TRUE
           /\ UNCHANGED <<set, name>>
 
-Next == Export
+\* the generic per-set entries the facade resolves by their hexadecimal suffix
+ExportGeneric == /\ ~done
+                 /\ name = "INQUIRY"        \* once per set
+                 /\ \A c \in {\h9E, \hA3} :
+                       PrintT(<<"GENERIC", ToJson([set |-> set, name |-> GenericName(set, c), value |-> c,
+                                                   sa |-> RequiredSA(c)])>>)
+                 /\ UNCHANGED vars
+
+Next == Export \/ ExportGeneric
 Spec == Init /\ [][Next]_vars
 
 SameNameSameValue == \A t \in Sets : name \in DOMAIN Op[t] => Op[t][name] = Op[set][name]
